@@ -71,7 +71,8 @@ PROPS.update({
                    'Core.SystemManager.__getitem__#type', 'Core.Environment.__init__', 'Core.Environment.add_agent',
                    'Core.Environment.remove_agent', 'Core.Agent.__init__', 'Core.Agent.add_component',
                    'Core.Agent.remove_component', 'Core.Agent.get_component', 'Core.Agent.add_component#resident',
-                   'Core.Agent.remove_component#resident'],
+                   'Core.Agent.remove_component#resident', 'Environments.SpaceWorld.add_agent',
+                   'Environments.SpaceWorld.remove_agent'],
         assumptions=ENV_ASSUME),
     'C04': dict(
         level_text='Deductive proof: the agents dict is an ordered map id -> agent; add_agent appends exactly one entry, '
@@ -83,7 +84,8 @@ PROPS.update({
                    'generator expression read as the list it yields.',
         functions=['Core.Environment.__init__', 'Core.Environment.add_agent', 'Core.Environment.remove_agent',
                    'Core.Environment.get_agent', 'Core.Environment.__len__', 'Core.Environment.__iter__',
-                   'Core.Agent.__init__'],
+                   'Core.Agent.__init__', 'Environments.SpaceWorld.__init__', 'Environments.SpaceWorld.add_agent',
+                   'Environments.SpaceWorld.remove_agent'],
         assumptions=ENV_ASSUME),
     'C13': dict(
         level_text='Deductive proof: get_agents returns a fresh list that is sound, complete and in joining order for the '
